@@ -120,8 +120,20 @@ type Res struct {
 	Note string // e.g. the passphrase class actually used
 }
 
+// Front lets a driver route the passphrase-bearing operations through another entry point (the API server).
+type Front interface {
+	Export(id string, pass []byte) ([]byte, error)
+	Import(js, old, np []byte) (string, string, error)
+	Unlock(pass []byte) error
+	Lock() error
+	ChPriv(old, np []byte) error
+	ChPub(old, np []byte) error
+}
+
 // Env is one running history.
 type Env struct {
+	Front    func(w *Wallet) Front // if set, about half of the front-able calls go through it
+	logSeen  map[string]int64
 	Run      *vh.Run
 	Prop     string
 	CaseIdx  int
@@ -199,6 +211,14 @@ func (e *Env) Report(props []string, kind string, attrs map[string]string, detai
 			return
 		}
 	}
+}
+
+func (e *Env) front() Front {
+	if e.Front == nil || e.Rng.Bool() {
+		return nil
+	}
+	e.Run.Count("calls_through_api_front", 1)
+	return e.Front(e.W)
 }
 
 // pass resolves a passphrase class against the model.
@@ -392,7 +412,12 @@ func (e *Env) Do(op Op) Res {
 		}
 		res.Note = pc
 		e.Trace[len(e.Trace)-1] += fmt.Sprintf(" old=%s(%s) new=%s(%s)", old, pc, np, npc)
-		err := w.M.ChangePrivPassphrase(old, np, FastScrypt)
+		var err error
+		if f := e.front(); f != nil {
+			err = f.ChPriv(old, np)
+		} else {
+			err = w.M.ChangePrivPassphrase(old, np, FastScrypt)
+		}
 		res.Err, res.Ack = err, err == nil
 		if err == nil {
 			if npc != "fresh" {
@@ -437,7 +462,12 @@ func (e *Env) Do(op Op) Res {
 			npc = "fresh"
 		}
 		e.Trace[len(e.Trace)-1] += fmt.Sprintf(" old=%s(%s) new=%s(%s)", old, pc, np, npc)
-		err := w.M.ChangePubPassphrase(old, np, FastScrypt)
+		var err error
+		if f := e.front(); f != nil {
+			err = f.ChPub(old, np)
+		} else {
+			err = w.M.ChangePubPassphrase(old, np, FastScrypt)
+		}
 		res.Err, res.Ack = err, err == nil
 		if err == nil {
 			if npc != "fresh" {
@@ -486,7 +516,13 @@ func (e *Env) Do(op Op) Res {
 		pass, pc := e.pass(op.PC)
 		res.Note = pc
 		e.Trace[len(e.Trace)-1] += fmt.Sprintf(" pass=%s(%s)", pass, pc)
-		js, err := w.M.ExportKeystore(id, pass)
+		var js []byte
+		var err error
+		if f := e.front(); f != nil {
+			js, err = f.Export(id, pass)
+		} else {
+			js, err = w.M.ExportKeystore(id, pass)
+		}
 		res.Err, res.Ack = err, err == nil
 		if err == nil && k != nil {
 			if pc != "cur" {
@@ -545,7 +581,13 @@ func (e *Env) Do(op Op) Res {
 			dumpBefore, _ = Dump(w.Raw)
 			snapBefore = w.Snapshot()
 		}
-		id, remark, err := w.M.ImportKeystore(ex.JSON, old, np)
+		var id, remark string
+		var err error
+		if f := e.front(); f != nil {
+			id, remark, err = f.Import(ex.JSON, old, np)
+		} else {
+			id, remark, err = w.M.ImportKeystore(ex.JSON, old, np)
+		}
 		res.Err, res.Ack = err, err == nil
 		if err != nil && e.Prop == "C01" {
 			cls := "wrong-passphrase"
@@ -594,14 +636,22 @@ func (e *Env) Do(op Op) Res {
 			}
 		}
 	case "lock":
-		w.M.Lock()
+		if f := e.front(); f != nil && f.Lock() == nil {
+		} else {
+			w.M.Lock()
+		}
 		res.Ack = true
 		m.Locked = true
 	case "unlock":
 		pass, pc := e.pass(op.PC)
 		res.Note = pc
 		e.Trace[len(e.Trace)-1] += fmt.Sprintf(" pass=%s(%s)", pass, pc)
-		err := w.M.Unlock(pass)
+		var err error
+		if f := e.front(); f != nil && m.Locked { // (the API answers "success" without looking at the passphrase when already unlocked)
+			err = f.Unlock(pass)
+		} else {
+			err = w.M.Unlock(pass)
+		}
 		res.Err, res.Ack = err, err == nil
 		if err == nil {
 			if hasKs && pc != "cur" {
@@ -1096,10 +1146,28 @@ func (e *Env) scan(res Res) {
 	secrets := e.Secrets()
 	files, _ := ReadAllFiles(e.W.Dir)
 	if e.LogDir != "" {
-		lf, _ := ReadAllFiles(e.LogDir)
-		for k, v := range lf {
-			files[k] = v
+		// log files are shared by all histories of the run and only grow: read what is new since this
+		// history's last scan (with an overlap so that a needle spanning the boundary is still found)
+		if e.logSeen == nil {
+			e.logSeen = map[string]int64{}
 		}
+		filepath.Walk(e.LogDir, func(p string, info os.FileInfo, err error) error {
+			if err != nil || !info.Mode().IsRegular() {
+				return nil
+			}
+			from := e.logSeen[p] - 512
+			if from < 0 {
+				from = 0
+			}
+			if f, err := os.Open(p); err == nil {
+				defer f.Close()
+				buf := make([]byte, info.Size()-from)
+				n, _ := f.ReadAt(buf, from)
+				files[p] = buf[:n]
+				e.logSeen[p] = from + int64(n)
+			}
+			return nil
+		})
 	}
 	for i, ex := range e.M.Exports {
 		files[fmt.Sprintf("export#%d(%s)", i, ex.ID)] = ex.JSON
@@ -1144,13 +1212,9 @@ func encOf(sname string) string {
 // ReadExtra reads files the API wrote next to the store (e.g. exported keystore files).
 func ReadExtra(dir string) map[string][]byte {
 	out := map[string][]byte{}
-	es, _ := os.ReadDir(dir)
-	for _, e := range es {
-		if !e.IsDir() && strings.Contains(e.Name(), "api-export") {
-			if b, err := os.ReadFile(filepath.Join(dir, e.Name())); err == nil {
-				out[filepath.Join(dir, e.Name())] = b
-			}
-		}
+	m, _ := ReadAllFiles(filepath.Join(dir, "api-export"))
+	for p, b := range m {
+		out[p] = b
 	}
 	return out
 }
